@@ -184,10 +184,13 @@ def run_shard(spec, R):
             if kind == "ndarray":
                 vs = np.array(vs, dtype=float)
             want = np.full(len(shape), vs) if kind == "scalar" else np.array(vs, dtype=float)
-            shape_arg = list(shape) if kind == "list" else tuple(shape)  # the caller's own shape container
+            # the caller's own shape container: a list, a tuple, or (with array-valued voxel sizes) an integer array
+            shape_arg = list(shape) if kind == "list" else (np.array(shape, dtype=int) if kind == "ndarray" else tuple(shape))
             ok, g = R.guarded("grid_constructible", lambda: darsia.Grid(shape_arg, vs))
-            if ok and kind == "list":
+            if ok and kind in ("list", "ndarray"):
                 shape_arg[0] = shape_arg[0] + 2  # ... which the caller changes afterwards (e.g. to build the next grid)
+                if kind == "ndarray":
+                    shape_arg *= 2
                 R.check(tuple(int(s_) for s_ in g.shape) == tuple(shape), "shape_kept", {"shape": list(shape), "grid_shape_after_caller_changed_its_list": [int(s_) for s_ in g.shape]})
             if ok:
                 if kind != "scalar":  # the caller goes on using (and overwriting) its own container
